@@ -32,6 +32,8 @@ def toEvents (c : Case) (ls : List Line) : List (Option Shared.Ev × String) :=
     let ev (e : Shared.Ev) : Option (Option Shared.Ev × String) := some (some e, l.raw)
     match l.site with
     | "sl.lock" | "ag.yield" | "sh.chk1" => none
+    -- life=1 cases: destroying a sender that was never connected is not an event of the protocol model
+    | "inv.discard" | "ret.discard" | "life.rel" => none
     | "inv.complete" => ev (.invComplete t ⟨chOfThread c t, l.b⟩)
     | "fire.value" => ev (.fire t ⟨0, l.b⟩)
     | "fire.stopped" => ev (.fire t ⟨1, l.b⟩)
@@ -81,7 +83,17 @@ def monitorsShared (c : Case) (ls : List Line) : List String :=
           some s!"consumer {k} received {r.site} {r.b} but the predecessor completed with {f.site} {f.b}"
         else none)
   let v3 := rcvs.filterMap (fun r => if consumers.contains r.a.toNat then none else some s!"signal for consumer {r.a} that was never started")
-  v0 ++ v1 ++ v2 ++ v3
+  -- life=1: every sender was consumed (self-deleting operation state) or discarded and the handle is gone, so
+  -- after a completed run the shared state must have been destroyed exactly once
+  let v4 := if c.get "life" != "1" || c.status != "ok" || fires.isEmpty then [] else
+    match (ls.filter (·.site == "life.rel")).getLast? with
+    | none => ["life=1 case without a life.rel note"]
+    | some l => if l.a == 1 && l.b == 1 then [] else
+        [s!"shared state allocated {l.b} time(s) but released {l.a} time(s) after every owner was gone (destroyed exactly once expected)"]
+  let v5 := if ls.any (·.site == "life.touch-after-release") then
+      ["the shared state was accessed after its last reference had been released (touch after release; guard allocator fault)"]
+    else if ls.any (·.site == "life.segv") then ["segmentation fault outside the guarded shared state"] else []
+  v5 ++ v0 ++ v1 ++ v2 ++ v3 ++ v4
 
 def pcName : Shared.Pc → String
   | .idle => "idle" | .fin => "fin" | _ => "busy"
